@@ -280,6 +280,50 @@ fn run_linker_shape(shape: usize) -> Res {
     Res { name: inj.name, fails, soft_len }
 }
 
+/// One writer, six requests: soft failure + hard failure (destination error); clean; soft failure;
+/// clean; hard failure only; clean.  The soft-error list of each successful request must describe
+/// that request only.
+fn run_reused_writer() -> Res {
+    use crate::dump::{dump_with, make_writer};
+    let name = "one writer: failing, clean, failing request".to_string();
+    let mut shape = Shape::threads(3);
+    shape.names = vec![None, Some(b"\xff\xfe".to_vec()), None];
+    let mut b = build(&shape);
+    let tid = b.p.threads[0].tid;
+    let mut w = make_writer(b.p.pid, &DumpOpts::default());
+    let mut fails = Vec::new();
+    let mut soft_len = 0;
+    // (name unreadable?, destination fails?)
+    for (k, (bad, dest_fails)) in [(true, true), (false, false), (true, false), (false, false), (false, true), (false, false)].into_iter().enumerate() {
+        b.p.set_name(tid, if bad { b"\xff\xfe" } else { b"fine" });
+        b.p.quiesce();
+        let mut c = crate::dest::RecDest::new(Vec::new(), 0, if dest_fails { crate::dest::Fault::ErrAt(4) } else { crate::dest::Fault::None });
+        match dump_with(&mut w, &mut c) {
+            DumpResult::Ok(bytes) => {
+                if dest_fails {
+                    fails.push(("MACHINERY".into(), "the request with a failing destination succeeded".into()));
+                }
+                for e in soft_error_laws(&bytes) {
+                    fails.push((format!("reused-writer/request-{k}/{}", e.split(':').next().unwrap_or("law")), e));
+                }
+                let d = Dump::parse(&bytes);
+                let text = d.raw_bytes(&bytes, ST_MOZ_SOFT_ERRORS).map(|s| String::from_utf8_lossy(s).into_owned()).unwrap_or_default();
+                soft_len += text.len();
+                let empty = serde_json::from_str::<Value>(&text).ok().and_then(|v| v.as_array().map(|a| a.is_empty())).unwrap_or(false);
+                if bad && empty {
+                    fails.push((format!("reused-writer/request-{k}/failure-not-reported"), "a thread name was unreadable but the soft-error list is empty".into()));
+                }
+                if !bad && !empty {
+                    fails.push((format!("reused-writer/request-{k}/not-empty-without-failure"), format!("nothing failed in this request (request {k} on the same writer; an earlier request had a soft failure and then failed hard) but the soft-error list is {}", &text[..text.len().min(300)])));
+                }
+            }
+            DumpResult::Err(_) if dest_fails => {}
+            other => fails.push((format!("reused-writer/request-{k}/dump-failed"), format!("{other:?}"))),
+        }
+    }
+    Res { name, fails, soft_len }
+}
+
 pub struct Res {
     name: String,
     fails: Vec<(String, String)>,
@@ -433,6 +477,14 @@ pub fn run(ctx: &Ctx, rep: &mut Report) {
         let n = case["n"].as_u64().unwrap_or(3) as usize;
         let ctx_on = case["ctx"].as_bool().unwrap_or(false);
         let name = case["name"].as_str().unwrap_or("");
+        if case.get("reused_writer").is_some() {
+            let r = run_reused_writer();
+            rep.evaluations += 1;
+            for (k, m) in r.fails {
+                rep.violation(&k, &m, case.clone());
+            }
+            return;
+        }
         if case.get("family").is_some() {
             let Some(c) = crate::checks::c02::Case::from_json(case) else {
                 rep.machinery("bad replay".into());
@@ -561,6 +613,16 @@ pub fn run(ctx: &Ctx, rep: &mut Report) {
         }
     }
     rep.set("linker_data_shapes", json!(shapes.len()));
+    let r = run_reused_writer();
+    rep.evaluations += 1;
+    rep.nontrivial += 1;
+    for (k, m) in r.fails {
+        if k == "MACHINERY" {
+            rep.machinery(m);
+        } else {
+            rep.violation(&k, &m, json!({"reused_writer": true}));
+        }
+    }
     rep.set("injectables", json!(injectables(3, &stat_fix, &auxv_fix).len()));
     rep.set("runs", json!(items.len()));
     rep.states = rep.evaluations;
